@@ -1251,8 +1251,173 @@ Fixpoint straight_sem (bs : list binstr) (st : store) (locals vs : list val) : s
               end
   end.
 
+
+Lemma mono_trans a b d : mono a b -> mono b d -> mono a d.
+Proof.
+  intros [A1 (e1 & A2)] [B1 (e2 & B2)]. split; [lia|]. exists (e1 ++ e2). rewrite B2, A2, app_assoc. reflexivity.
+Qed.
+Lemma small_of_mono s sf : small sf -> mono s sf -> small s.
+Proof.
+  intros [A B] [M1 (e & M2)]. split; [lia|]. rewrite M2, app_length in B. lia.
+Qed.
+Lemma consts_ok_of_mono s sf : consts_ok sf -> mono s sf -> consts_ok s.
+Proof.
+  intros CO [_ (e & M2)] k v idx Hk. apply (CO k v idx). rewrite M2. rewrite nth_error_app1; auto.
+  apply nth_error_Some. congruence.
+Qed.
+Lemma cur_off_app s s1 t : c_out s1 = c_out s ++ t -> cur_off s1 = cur_off s + Z.of_nat (length t).
+Proof. intros E. unfold cur_off. rewrite E, app_length. lia. Qed.
+
+Lemma sim_compose M M1 sf n1 r :
+  nsteps n1 M = SNext M1 -> frame_eq M M1 -> sim_result M1 sf r -> sim_result M sf r.
+Proof.
+  intros Hn F H. unfold sim_result in *. destruct r as [[|]|[[st' l'] vs']].
+  - destruct H as (n & e & Hn2). exists (n1 + n)%nat, e. rewrite (nsteps_app _ _ _ _ Hn). exact Hn2.
+  - exact I.
+  - destruct H as (W & n & M' & Hn2 & R & F2). split; [exact W|]. exists (n1 + n)%nat, M'.
+    split; [rewrite (nsteps_app _ _ _ _ Hn); exact Hn2|]. split; [exact R|eapply frame_eq_trans; eauto].
+Qed.
+
+Definition is_set_tee (b : binstr) : option (nat * bool) :=
+  match b with BLocalSet i => Some (i, true) | BLocalTee i => Some (i, false) | _ => None end.
+
+(** ** facts about the compiler's output that need no invariant: the output only grows (apart
+    from the 4 bytes patched by a short-circuited local.set), locations and constants grow *)
+Definition grows (s s1 : cstate) : Prop := (exists t, c_out s1 = c_out s ++ t) /\ mono s s1.
+Lemma grows_refl s : grows s s.
+Proof. split; [exists []; rewrite app_nil_r; reflexivity|apply mono_refl]. Qed.
+Lemma grows_trans a b d : grows a b -> grows b d -> grows a d.
+Proof.
+  intros [(t1 & E1) M1] [(t2 & E2) M2]. split; [exists (t1 ++ t2); rewrite E2, E1, app_assoc; reflexivity|].
+  eapply mono_trans; eauto.
+Qed.
+
+Lemma consume_pure s p s' : consume s = Some (p, s') ->
+  c_out s' = c_out s /\ c_next s' = c_next s /\ c_consts s' = c_consts s /\ c_last s' = c_last s.
+Proof.
+  unfold consume. destruct (c_stack s) as [|q st0]; [discriminate|].
+  destruct (negb (existsb (provider_eqb q) st0)); intros H; inversion H; subst; clear H; destruct p; cbn; auto.
+Qed.
+Lemma push_consume_n_pure k : forall s s', push_consume_n k s = Some s' ->
+  (exists t, c_out s' = c_out s ++ t) /\ c_next s' = c_next s /\ c_consts s' = c_consts s /\ c_last s' = c_last s.
+Proof.
+  induction k as [|k IH]; intros s s' H; cbn [push_consume_n] in H.
+  - inversion H; subst. split; [exists []; rewrite app_nil_r; reflexivity|auto].
+  - unfold push_consume in H. destruct (consume s) as [[p s1]|] eqn:E; [|discriminate].
+    destruct (consume_pure _ _ _ E) as (A1 & A2 & A3 & A4).
+    destruct (IH _ _ H) as ((t & B1) & B2 & B3 & B4). cbn in B1, B2, B3, B4.
+    split; [exists (i32_bytes (provider_idx p) ++ t); rewrite B1, A1, app_assoc; reflexivity|].
+    repeat split; congruence.
+Qed.
+Lemma dyn_get_pure s r s' : dyn_get s = (r, s') ->
+  c_out s' = c_out s /\ c_next s <= c_next s' /\ c_consts s' = c_consts s /\ c_last s' = c_last s /\ c_stack s' = c_stack s.
+Proof. unfold dyn_get. destruct (c_reuse s); intros H; inversion H; subst; cbn; repeat split; auto; lia. Qed.
+
+Lemma gi_pure s opc imm k prov s1 :
+  gi (set_last s None) opc imm k prov = Some s1 ->
+  mono s s1 /\ exists pre,
+    if prov then exists r, c_out s1 = (c_out s ++ pre) ++ i32_bytes r /\ c_last s1 = Some (Z.of_nat (length (c_out s ++ pre)))
+    else c_out s1 = c_out s ++ pre /\ c_last s1 = None.
+Proof.
+  unfold gi. intros H.
+  destruct (emit_imm_out (push_op (set_last s None) opc) imm) as (Eo & (Sa1 & Sa2 & Sa3 & Sa4) & Eb & El).
+  destruct (push_consume_n k (emit_imm (push_op (set_last s None) opc) imm)) as [s2|] eqn:E; [|discriminate].
+  destruct (push_consume_n_pure _ _ _ E) as ((t & B1) & B2 & B3 & B4).
+  cbn [c_out c_next c_consts c_last c_stack c_reuse push_op emit set_out set_last] in *.
+  destruct prov; inversion H; subst; clear H.
+  - unfold push_provide, provide. destruct (dyn_get s2) as [r s3] eqn:Ed.
+    destruct (dyn_get_pure _ _ _ Ed) as (D1 & D2 & D3 & D4 & D5).
+    cbn [c_out c_next c_consts c_last emit set_out set_last set_stack cur_off].
+    split; [split; [cbn [c_next c_consts set_last emit set_out set_stack]; lia
+                   |exists []; cbn [c_next c_consts set_last emit set_out set_stack]; rewrite app_nil_r; congruence]|].
+    exists ([opc] ++ imm ++ t). exists r. unfold cur_off. cbn [c_out set_stack]. rewrite D1, B1, Eo.
+    split; [rewrite <- !app_assoc; reflexivity|]. f_equal. f_equal. rewrite <- !app_assoc. reflexivity.
+  - split; [split; [lia|exists []; rewrite app_nil_r; congruence]|].
+    exists ([opc] ++ imm ++ t). split; [rewrite B1, Eo, <- !app_assoc; reflexivity|congruence].
+Qed.
+
+Lemma set_tee_tail_pure s3 idx b s1 : set_tee_tail s3 idx b = Some s1 ->
+  grows s3 s1 /\ c_last s1 = c_last s3.
+Proof.
+  unfold set_tee_tail, push_consume. destruct (consume (push_op s3 ICopy)) as [[p s4]|] eqn:E; [|discriminate].
+  destruct (consume_pure _ _ _ E) as (A1 & A2 & A3 & A4). cbn in A1, A2, A3, A4.
+  intros H. destruct b; inversion H; subst; clear H; cbn [c_last emit push_loc set_out set_stack provide_existing]; rewrite ?A4.
+  all: unfold grows, mono; cbn [c_out c_next c_consts emit push_loc set_out set_stack provide_existing]; rewrite ?A1, ?A2, ?A3.
+  all: split; [split; [exists ([ICopy] ++ i32_bytes (provider_idx p) ++ i32_bytes idx); rewrite <- !app_assoc; reflexivity
+                      |split; [lia|exists []; rewrite app_nil_r; reflexivity]]|reflexivity].
+Qed.
+
+Lemma set_tee_pure lp s0 i b s1 :
+  set_tee lp s0 i b = Some s1 -> (lp = None \/ has_local (Z.of_nat i) (c_stack s0) = true) ->
+  grows s0 s1 /\ c_last s1 = c_last s0.
+Proof.
+  unfold set_tee. rewrite preserve_local_spec. intros H Hlp.
+  destruct (has_local (Z.of_nat i) (c_stack s0)) eqn:Hl.
+  - destruct (dyn_get s0) as [d s0'] eqn:Ed. destruct (dyn_get_pure _ _ _ Ed) as (D1 & D2 & D3 & D4 & D5).
+    assert (Ht : set_tee_tail (push_loc (emit (push_op (set_stack s0' (map (subst_local (Z.of_nat i) (PDyn d)) (c_stack s0))) ICopy)
+                                              (i32_bytes (Z.of_nat i))) (PDyn d)) (Z.of_nat i) b = Some s1) by (destruct lp; exact H).
+    destruct (set_tee_tail_pure _ _ _ _ Ht) as (G & L). cbn in L. split; [|congruence].
+    eapply grows_trans; [|exact G]. split.
+    + exists ([ICopy] ++ i32_bytes (Z.of_nat i) ++ i32_bytes d). cbn. rewrite D1, <- !app_assoc. reflexivity.
+    + split; [cbn; lia|exists []; cbn; rewrite app_nil_r; congruence].
+  - destruct Hlp as [->|X]; [|discriminate].
+    assert (Ht : set_tee_tail (set_stack s0 (c_stack s0)) (Z.of_nat i) b = Some s1) by exact H.
+    destruct (set_tee_tail_pure _ _ _ _ Ht) as (G & L). split; [|exact L].
+    eapply grows_trans; [|exact G]. split; [exists []; cbn; rewrite app_nil_r; reflexivity|split; [cbn; lia|exists []; cbn; rewrite app_nil_r; reflexivity]].
+Qed.
+
 Lemma straight_ok_straight b : straight_ok b = true -> straight b = true.
 Proof. destruct b; cbn; try discriminate; auto; try (destruct t; try destruct op; cbn; auto; discriminate). Qed.
+
+Lemma score_pure lp s b s1 :
+  straight_ok b = true -> score lp (set_last s None) b = Some s1 ->
+  (match is_set_tee b with Some (i, _) => lp = None \/ has_local (Z.of_nat i) (c_stack s) = true | None => True end) ->
+  grows s s1 /\ (sim_gi b = true \/ c_last s1 = None).
+Proof.
+  intros Hok H Hsafe.
+  assert (G0 : grows s (set_last s None)) by (split; [exists []; cbn; rewrite app_nil_r; reflexivity|split; [cbn; lia|exists []; cbn; rewrite app_nil_r; reflexivity]]).
+  assert (GI : forall opc imm k prov, gi_shape b = Some (opc, imm, k, prov) -> gi (set_last s None) opc imm k prov = Some s1 ->
+               (prov = true -> sim_gi b = true) ->
+               grows s s1 /\ (sim_gi b = true \/ c_last s1 = None)).
+  { intros opc imm k prov Hsh Hgi Hp'. destruct (gi_pure _ _ _ _ _ _ Hgi) as (Mo & pre & Hp). destruct prov.
+    - destruct Hp as (r & E & _). split; [|left; auto]. split; [|exact Mo]. exists (pre ++ i32_bytes r). rewrite E, app_assoc. reflexivity.
+    - destruct Hp as (E & L). split; [|right; exact L]. split; [|exact Mo]. exists pre. exact E. }
+  destruct b; cbn [straight_ok] in Hok; try discriminate Hok; cbn [score] in H; cbn [is_set_tee] in Hsafe;
+    try (cbn [gi_shape] in H; eapply GI; [reflexivity|exact H|intros; try discriminate; exact Hok]).
+  - inversion H; subst. split; [exact G0|right; reflexivity].
+  - destruct (consume (set_last s None)) as [[p s']|] eqn:E; [|discriminate]. inversion H; subst.
+    destruct (consume_pure _ _ _ E) as (A1 & A2 & A3 & A4). cbn in A1, A2, A3, A4.
+    split; [|right; exact A4]. split; [exists []; rewrite app_nil_r; exact A1|split; [lia|exists []; rewrite app_nil_r; exact A3]].
+  - inversion H; subst. split; [|right; reflexivity]. exact G0.
+  - destruct (set_tee_pure _ _ _ _ _ H Hsafe) as (G & L). split; [exact (grows_trans _ _ _ G0 G)|right; exact L].
+  - destruct (set_tee_pure _ _ _ _ _ H Hsafe) as (G & L). split; [exact (grows_trans _ _ _ G0 G)|right; exact L].
+  - inversion H; subst. unfold push_constant. destruct (find _ _) as [[? ?]|].
+    + split; [exact G0|right; reflexivity].
+    + split; [|right; reflexivity].
+      split; [exists []; cbn; rewrite app_nil_r; reflexivity|split; [cbn; lia|eexists; cbn; reflexivity]].
+Qed.
+
+Lemma pair_pure s s1 s2 opc imm k i b :
+  gi (set_last s None) opc imm k true = Some s1 -> has_local (Z.of_nat i) (c_stack s1) = false ->
+  set_tee (c_last s1) (set_last s1 None) i b = Some s2 -> grows s s2 /\ c_last s2 = None.
+Proof.
+  intros Hgi Hl H. destruct (gi_pure _ _ _ _ _ _ Hgi) as (Mo & pre & r & Eo & El).
+  unfold set_tee in H. rewrite preserve_local_spec in H. change (c_stack (set_last s1 None)) with (c_stack s1) in H.
+  rewrite Hl, El in H.
+  set (sb := back_patch (set_stack (set_last s1 None) (c_stack s1)) (Z.of_nat (length (c_out s ++ pre))) (Z.of_nat i)) in *.
+  destruct (consume sb) as [[p s4]|] eqn:Ecs; [|discriminate].
+  destruct (consume_pure _ _ _ Ecs) as (A1 & A2 & A3 & A4).
+  assert (Eob : c_out sb = (c_out s ++ pre) ++ i32_bytes (Z.of_nat i)).
+  { unfold sb, back_patch. cbn [c_out set_out set_stack set_last]. rewrite Eo, Nat2Z.id.
+    apply overwrite_end. rewrite u32_bytes_length, i32_bytes_length. reflexivity. }
+  change (c_next sb) with (c_next s1) in A2. change (c_consts sb) with (c_consts s1) in A3. change (c_last sb) with (@None Z) in A4.
+  assert (F : c_out s2 = c_out sb /\ c_next s2 = c_next s1 /\ c_consts s2 = c_consts s1 /\ c_last s2 = None).
+  { destruct b; inversion H; subst; cbn; rewrite ?A1, ?A2, ?A3, ?A4; auto. }
+  destruct F as (F1 & F2 & F3 & F4). split; [|exact F4]. split.
+  - exists (pre ++ i32_bytes (Z.of_nat i)). rewrite F1, Eob, app_assoc. reflexivity.
+  - destruct Mo as [M1 (e & M2)]. split; [lia|exists e; congruence].
+Qed.
+
 
 Lemma sim_gi_shape b : sim_gi b = true -> exists opc imm k, gi_shape b = Some (opc, imm, k, true).
 Proof. destruct b; cbn; try discriminate; intros; eauto. Qed.
@@ -1278,8 +1443,6 @@ Proof.
     rewrite E. reflexivity.
 Qed.
 
-Definition is_set_tee (b : binstr) : option (nat * bool) :=
-  match b with BLocalSet i => Some (i, true) | BLocalTee i => Some (i, false) | _ => None end.
 Definition safe (s : cstate) (bs : list binstr) : Prop :=
   match bs with
   | b :: _ => match is_set_tee b with
@@ -1340,4 +1503,216 @@ Proof.
   - exact (step_pair b1 opc imm k s s1 s2 i false st locals vs M Hsh Hg W S2 Hok2 Hgi Hl Hsc2 R).
 Qed.
 
+(** classification of the next step: a providing instruction followed by a short-circuited
+    local.set / local.tee is handled as one unit *)
+Lemma next_case b1 rest s1 :
+  (exists b2 rest' i is_set, rest = b2 :: rest' /\ sim_gi b1 = true /\ is_set_tee b2 = Some (i, is_set)
+                            /\ has_local (Z.of_nat i) (c_stack s1) = false)
+  \/ (sim_gi b1 = true \/ c_last s1 = None -> safe s1 rest).
+Proof.
+  destruct rest as [|b2 rest']; [right; intros; exact I|].
+  destruct (is_set_tee b2) as [[i is_set]|] eqn:Est; [|right; intros; cbn; rewrite Est; exact I].
+  destruct (sim_gi b1) eqn:Hg.
+  - destruct (has_local (Z.of_nat i) (c_stack s1)) eqn:Hl.
+    + right. intros _. cbn. rewrite Est. right. exact Hl.
+    + left. exists b2, rest', i, is_set. auto.
+  - right. intros [X|X]; [discriminate|]. cbn. rewrite Est. left. exact X.
+Qed.
+
+Lemma safe_last_none s bs : c_last s = None -> safe s bs.
+Proof. intros H. destruct bs as [|b r]; cbn; auto. destruct (is_set_tee b) as [[i ?]|]; auto. Qed.
+
+Lemma compile_grows cx n : forall bs s v v' sf,
+  (length bs <= n)%nat -> forallb straight_ok bs = true ->
+  compile_ops cx (map OBasic bs) v s = Some (v', sf) -> v_unreach v = None -> safe s bs ->
+  grows s sf.
+Proof.
+  induction n as [|n IH]; intros bs s v v' sf Hlen Hok Hc Hu Hsafe.
+  - destruct bs; [|cbn in Hlen; lia]. cbn in Hc. inversion Hc; subst. apply grows_refl.
+  - destruct bs as [|b1 rest]; [cbn in Hc; inversion Hc; subst; apply grows_refl|].
+    cbn [forallb] in Hok. apply andb_true_iff in Hok. destruct Hok as [Hok1 Hokr].
+    cbn [map compile_ops] in Hc.
+    assert (Hreach : v_reachability v = Reachable) by (unfold v_reachability; rewrite Hu; reflexivity).
+    rewrite Hreach in Hc.
+    destruct (vstep cx v (OBasic b1)) as [v1|] eqn:Ev1; [|discriminate].
+    destruct (handle_opcode cx s v1 Reachable (OBasic b1)) as [s1|] eqn:Eh1; [|discriminate].
+    pose proof (straight_vstep cx v b1 v1 (straight_ok_straight b1 Hok1) Hu Ev1) as Hu1.
+    destruct (handle_score cx s v1 b1 s1 (straight_ok_straight b1 Hok1) Eh1) as [Hsc1 _].
+    destruct (next_case b1 rest s1) as [(b2 & rest' & i & is_set & -> & Hg & Est & Hl)|Hsafe1].
+    + cbn [forallb] in Hokr. apply andb_true_iff in Hokr. destruct Hokr as [Hok2 Hokr'].
+      cbn [map compile_ops] in Hc.
+      assert (Hreach1 : v_reachability v1 = Reachable) by (unfold v_reachability; rewrite Hu1; reflexivity).
+      rewrite Hreach1 in Hc.
+      destruct (vstep cx v1 (OBasic b2)) as [v2|] eqn:Ev2; [|discriminate].
+      destruct (handle_opcode cx s1 v2 Reachable (OBasic b2)) as [s2|] eqn:Eh2; [|discriminate].
+      pose proof (straight_vstep cx v1 b2 v2 (straight_ok_straight b2 Hok2) Hu1 Ev2) as Hu2.
+      destruct (handle_score cx s1 v2 b2 s2 (straight_ok_straight b2 Hok2) Eh2) as [Hsc2 _].
+      destruct (sim_gi_shape b1 Hg) as (opc & imm & k & Hsh).
+      assert (Hgi : gi (set_last s None) opc imm k true = Some s1).
+      { destruct b1; cbn [sim_gi] in Hg; try discriminate Hg; cbn [score gi_shape] in Hsc1; cbn [gi_shape] in Hsh;
+          inversion Hsh; subst; exact Hsc1. }
+      assert (Hst : set_tee (c_last s1) (set_last s1 None) i is_set = Some s2).
+      { destruct b2; cbn [is_set_tee] in Est; try discriminate Est; inversion Est; subst; exact Hsc2. }
+      destruct (pair_pure s s1 s2 opc imm k i is_set Hgi Hl Hst) as (G & L).
+      eapply grows_trans; [exact G|]. eapply (IH rest'); eauto. { cbn in Hlen. lia. } apply safe_last_none. exact L.
+    + assert (Hs1 : match is_set_tee b1 with Some (i, _) => c_last s = None \/ has_local (Z.of_nat i) (c_stack s) = true | None => True end).
+      { cbn in Hsafe. exact Hsafe. }
+      destruct (score_pure (c_last s) s b1 s1 Hok1 Hsc1 Hs1) as (G & Hn).
+      eapply grows_trans; [exact G|]. eapply (IH rest); eauto. cbn in Hlen. lia.
+Qed.
+
+Lemma straight_main cx n : forall bs s v v' sf st locals vs M tail,
+  (length bs <= n)%nat -> forallb straight_ok bs = true ->
+  compile_ops cx (map OBasic bs) v s = Some (v', sf) -> v_unreach v = None ->
+  cwf nl s -> small sf -> consts_ok sf -> safe s bs ->
+  rel s st locals vs M -> c_out sf = c_out s ++ tail -> code_at c (cur_off s) tail ->
+  sim_result M sf (straight_sem bs st locals vs).
+Proof.
+  induction n as [|n IH]; intros bs s v v' sf st locals vs M tail Hlen Hok Hc Hu W Sf COf Hsafe R Et Hcode'.
+  - destruct bs; [|cbn in Hlen; lia]. cbn in Hc. inversion Hc; subst. cbn.
+    split; [exact W|]. exists O, M. split; [reflexivity|]. split; [exact R|apply frame_eq_refl].
+  - destruct bs as [|b1 rest].
+    { cbn in Hc. inversion Hc; subst. cbn. split; [exact W|]. exists O, M. split; [reflexivity|]. split; [exact R|apply frame_eq_refl]. }
+    cbn [forallb] in Hok. apply andb_true_iff in Hok. destruct Hok as [Hok1 Hokr].
+    cbn [map compile_ops] in Hc.
+    assert (Hreach : v_reachability v = Reachable) by (unfold v_reachability; rewrite Hu; reflexivity).
+    rewrite Hreach in Hc.
+    destruct (vstep cx v (OBasic b1)) as [v1|] eqn:Ev1; [|discriminate].
+    destruct (handle_opcode cx s v1 Reachable (OBasic b1)) as [s1|] eqn:Eh1; [|discriminate].
+    pose proof (straight_vstep cx v b1 v1 (straight_ok_straight b1 Hok1) Hu Ev1) as Hu1.
+    destruct (next_case b1 rest s1) as [(b2 & rest' & i & is_set & -> & Hg & Est & Hl)|Hsafe1].
+    + (* pair *)
+      cbn [forallb] in Hokr. apply andb_true_iff in Hokr. destruct Hokr as [Hok2 Hokr'].
+      cbn [map compile_ops] in Hc.
+      assert (Hreach1 : v_reachability v1 = Reachable) by (unfold v_reachability; rewrite Hu1; reflexivity).
+      rewrite Hreach1 in Hc.
+      destruct (vstep cx v1 (OBasic b2)) as [v2|] eqn:Ev2; [|discriminate].
+      destruct (handle_opcode cx s1 v2 Reachable (OBasic b2)) as [s2|] eqn:Eh2; [|discriminate].
+      pose proof (straight_vstep cx v1 b2 v2 (straight_ok_straight b2 Hok2) Hu1 Ev2) as Hu2.
+      (* growth of the rest, without invariant *)
+      assert (L2 : c_last s2 = None).
+      { destruct (handle_score cx s v1 b1 s1 (straight_ok_straight b1 Hok1) Eh1) as [Hsc1 _].
+        destruct (handle_score cx s1 v2 b2 s2 (straight_ok_straight b2 Hok2) Eh2) as [Hsc2 _].
+        destruct (sim_gi_shape b1 Hg) as (opc & imm & k & Hsh).
+        assert (Hgi : gi (set_last s None) opc imm k true = Some s1).
+        { destruct b1; cbn [sim_gi] in Hg; try discriminate Hg; cbn [score gi_shape] in Hsc1; cbn [gi_shape] in Hsh;
+            inversion Hsh; subst; exact Hsc1. }
+        assert (Hst : set_tee (c_last s1) (set_last s1 None) i is_set = Some s2).
+        { destruct b2; cbn [is_set_tee] in Est; try discriminate Est; inversion Est; subst; exact Hsc2. }
+        apply (pair_pure s s1 s2 opc imm k i is_set Hgi Hl Hst). }
+      assert (G2 : grows s2 sf).
+      { eapply (compile_grows cx n rest'); eauto. { cbn in Hlen. lia. } apply safe_last_none. exact L2. }
+      destruct G2 as [(t2 & E2) Mo2].
+      assert (S2 : small s2) by (eapply small_of_mono; eauto).
+      destruct (step_two cx b1 b2 i is_set s v1 v2 s1 s2 st locals vs M Hok1 Hg Est Hok2 Eh1 Eh2 Hl W S2 R)
+        as [(t1 & E1 & Mo1 & Hsim) _].
+      assert (Etail : tail = t1 ++ t2).
+      { rewrite E2, E1, <- app_assoc in Et. apply app_inv_head in Et. symmetry; exact Et. }
+      subst tail. apply code_at_app in Hcode'. destruct Hcode' as [Hc1 Hc2].
+      specialize (Hsim Hc1). cbn [straight_sem].
+      unfold sim_result in Hsim.
+      destruct (exec_simple cap b1 st locals vs) as [[|]|[[st1 l1] vs1]].
+      * exact Hsim.
+      * exact I.
+      * destruct (exec_simple cap b2 st1 l1 vs1) as [[|]|[[st2 l2] vs2']].
+        -- exact Hsim.
+        -- exact I.
+        -- destruct Hsim as (W2 & n1 & M1 & Hn1 & R1 & F1).
+           eapply (sim_compose M M1 sf n1); eauto.
+           eapply (IH rest' s2 v2 v' sf st2 l2 vs2' M1 t2); eauto.
+           ++ cbn in Hlen. lia.
+           ++ apply safe_last_none. exact L2.
+           ++ rewrite (cur_off_app s s2 t1 E1). exact Hc2.
+    + (* single instruction *)
+      destruct (handle_score cx s v1 b1 s1 (straight_ok_straight b1 Hok1) Eh1) as [Hsc1 _].
+      assert (Hs1 : match is_set_tee b1 with Some (i, _) => c_last s = None \/ has_local (Z.of_nat i) (c_stack s) = true | None => True end).
+      { cbn in Hsafe. exact Hsafe. }
+      destruct (score_pure (c_last s) s b1 s1 Hok1 Hsc1 Hs1) as (G1 & Hn1).
+      pose proof (Hsafe1 Hn1) as Hsafe1'.
+      assert (G2 : grows s1 sf).
+      { eapply (compile_grows cx n rest); eauto. cbn in Hlen. lia. }
+      destruct G2 as [(t2 & E2) Mo2].
+      assert (S1 : small s1) by (eapply small_of_mono; eauto).
+      assert (CO1 : consts_ok s1) by (eapply consts_ok_of_mono; eauto).
+      assert (Hsf : safe s [b1]) by (cbn in *; exact Hsafe).
+      destruct (step_one cx b1 s v1 s1 st locals vs M Hok1 Eh1 W S1 CO1 Hsf R) as [(t1 & E1 & Mo1 & Hsim) _].
+      assert (Etail : tail = t1 ++ t2).
+      { rewrite E2, E1, <- app_assoc in Et. apply app_inv_head in Et. symmetry; exact Et. }
+      subst tail. apply code_at_app in Hcode'. destruct Hcode' as [Hc1 Hc2].
+      specialize (Hsim Hc1). cbn [straight_sem]. unfold sim_result in Hsim.
+      destruct (exec_simple cap b1 st locals vs) as [[|]|[[st1 l1] vs1]].
+      * exact Hsim.
+      * exact I.
+      * destruct Hsim as (W1 & n1 & M1 & Hn1' & R1 & F1).
+        eapply (sim_compose M M1 sf n1); eauto.
+        eapply (IH rest s1 v1 v' sf st1 l1 vs1 M1 t2); eauto.
+        -- cbn in Hlen. lia.
+        -- rewrite (cur_off_app s s1 t1 E1). exact Hc2.
+Qed.
+
 End Straight.
+
+(** * The theorem in closed form: compilation from an empty provider stack *)
+Definition init_cstate (next : Z) : cstate :=
+  {| c_out := []; c_bp := []; c_stack := []; c_next := next; c_reuse := []; c_consts := []; c_last := None |}.
+Definition init_vstate (ret : blocktype) : vstate :=
+  v_push_ctrl false ret ret {| v_opds := 0; v_ctrls := []; v_unreach := None |}.
+
+Lemma cwf_init nl next : 0 <= nl <= next -> cwf nl (init_cstate next).
+Proof.
+  intros H. constructor; cbn; auto.
+  - intros k v idx Hk. destruct k; discriminate.
+Qed.
+
+Theorem straightline_correct :
+  forall (art : artifact) (mhost : nat -> list Z -> option (option Z)) (cap : N) (cx : cctx)
+         (bs : list binstr) (ret : blocktype) (nl next : Z) (v' : vstate) (sf : cstate),
+    forallb straight_ok bs = true ->
+    0 <= nl <= next ->
+    compile_ops cx (map OBasic bs) (init_vstate ret) (init_cstate next) = Some (v', sf) ->
+    c_next sf < 2147483648 -> Z.of_nat (length (c_consts sf)) < 2147483648 ->
+    forall (codes : list (code_map * list Z)) (fidx : nat) (rest_code : list N),
+      nth_error codes fidx
+        = Some (build_code (c_out sf ++ rest_code) xH (PositiveMap.empty N), map fst (c_consts sf)) ->
+      forall (st : store) (locals : list val) (M : mstate),
+        rel art fidx (map fst (c_consts sf)) nl (c_next sf) cap (init_cstate next) st locals [] M ->
+        sim_result art mhost codes fidx (map fst (c_consts sf)) nl (c_next sf) cap M sf
+                   (straight_sem cap bs st locals []).
+Proof.
+  intros art mhost cap cx bs ret nl next v' sf Hok Hnl Hc Hn Hcs codes fidx rest_code Hcodes st locals M R.
+  eapply (straight_main art mhost codes fidx _ (map fst (c_consts sf)) Hcodes nl (c_next sf) Hn cap cx (length bs) bs
+            (init_cstate next) (init_vstate ret) v' sf st locals [] M (c_out sf)); eauto.
+  - apply cwf_init. exact Hnl.
+  - split; [lia|exact Hcs].
+  - intros k v idx Hk. rewrite (nth_indep _ 0 (fst (v, idx))). 2:{ rewrite map_length. apply nth_error_Some. congruence. }
+    rewrite map_nth. erewrite nth_error_nth; [|exact Hk]. reflexivity.
+  - apply safe_last_none. reflexivity.
+  - cbn. eapply code_at_prefix. apply build_code_at.
+Qed.
+
+(** the specification's [exec_seq] on straight-line code is [straight_sem] *)
+Lemma exec_seq_straight host cap m bs : forall fuel s locals vs,
+  forallb straight_ok bs = true -> (length bs + 2 <= fuel)%nat ->
+  exec_seq host cap m fuel s locals vs (map Basic bs) =
+  match straight_sem cap bs s locals vs with
+  | inr (s', l', vs') => RNormal s' l' vs'
+  | inl true => RTrap
+  | inl false => RStuck
+  end.
+Proof.
+  induction bs as [|b r IH]; intros fuel s locals vs Hok Hf.
+  - destruct fuel; [cbn in Hf; lia|]. reflexivity.
+  - cbn [forallb] in Hok. apply andb_true_iff in Hok. destruct Hok as [Hb Hr].
+    destruct fuel as [|[|f]]; try (cbn in Hf; lia).
+    cbn [map straight_sem].
+    assert (E : exec_seq host cap m (S (S f)) s locals vs (Basic b :: map Basic r) =
+                match exec_simple cap b s locals vs with
+                | inr (s', l', st') => exec_seq host cap m (S f) s' l' st' (map Basic r)
+                | inl true => RTrap
+                | inl false => RStuck
+                end).
+    { destruct b; try discriminate Hb; cbn [exec_seq exec_instr];
+        destruct (exec_simple cap _ s locals vs) as [[|]|[[? ?] ?]]; reflexivity. }
+    rewrite E. destruct (exec_simple cap b s locals vs) as [[|]|[[s' l'] vs']]; try reflexivity.
+    apply IH; auto. cbn in Hf. lia.
+Qed.
